@@ -12,15 +12,17 @@ import (
 	"bytes"
 	"encoding/json"
 	"fmt"
+	"io"
+	"log"
+	"os"
 	"sort"
 	"strconv"
 	"strings"
 
-	"github.com/EliCDavis/jbtf"
+	"github.com/EliCDavis/polyform/generator"
 	"github.com/EliCDavis/polyform/generator/artifact/basics"
 	"github.com/EliCDavis/polyform/generator/graph"
 	"github.com/EliCDavis/polyform/generator/parameter"
-	"github.com/EliCDavis/polyform/generator/schema"
 	"github.com/EliCDavis/polyform/nodes"
 	"github.com/EliCDavis/polyform/refutil"
 
@@ -75,29 +77,16 @@ var (
 
 var typeOf = map[string]*string{"concat": &tConcat, "pair": &tPair, "text": &tText, "str": &tStr, "num": &tNum, "bool": &tBool, "file": &tFile}
 
+// factory holds the harness-specific node types; text artifacts and the parameter types come from
+// the library's own registrations (generator/artifact/basics, generator/parameter).
 func factory() *refutil.TypeFactory {
 	f := &refutil.TypeFactory{}
 	refutil.RegisterType[ConcatNode](f)
 	refutil.RegisterType[PairNode](f)
-	refutil.RegisterType[basics.TextNode](f)
-	// non-zero defaults: a zero current value must survive the round trip as a value, not fall back to the default
-	refutil.RegisterTypeWithBuilder[parameter.String](f, func() parameter.String { return parameter.String{DefaultValue: "dflt"} })
-	refutil.RegisterTypeWithBuilder[parameter.Float64](f, func() parameter.Float64 { return parameter.Float64{DefaultValue: 2.5} })
-	refutil.RegisterTypeWithBuilder[parameter.Bool](f, func() parameter.Bool { return parameter.Bool{DefaultValue: true} })
-	refutil.RegisterType[parameter.File](f)
 	return f
 }
 
-func save(i *graph.Instance) []byte {
-	g := schema.App{Producers: map[string]schema.Producer{}}
-	enc := &jbtf.Encoder{}
-	i.EncodeToAppSchema(&g, enc)
-	data, err := enc.ToPgtf(g)
-	if err != nil {
-		panic(err)
-	}
-	return data
-}
+func save(app *generator.App) []byte { return app.Schema() }
 
 // ---- operations ----
 
@@ -138,15 +127,58 @@ func (o Op) String() string {
 }
 
 type world struct {
+	app   *generator.App
+	saver *generator.GraphSaver
 	inst  *graph.Instance
 	ids   []string
 	kinds map[string]string
-	arrN  int // connected array slots of concat#0
+	arrN  int               // connected array slots of concat#0
 	meta  map[string]string // reference model of the metadata: flattened leaf path -> canonical JSON value
 }
 
+// newWorld builds an App (as the CLI / editor does), takes its graph instance and attaches the real
+// autosaver: after every editing operation the harness calls GraphSaver.Save(), exactly like every
+// mutating endpoint of the server does.
 func newWorld() *world {
-	return &world{inst: graph.New(factory()), kinds: map[string]string{}, meta: map[string]string{}}
+	registerOnce()
+	app := &generator.App{Name: "verif", Version: "1", Description: "c12"}
+	w := &world{app: app, inst: generator.VerifInstance(app), kinds: map[string]string{}, meta: map[string]string{}}
+	w.saver = generator.VerifSaver(app, autosavePath())
+	return w
+}
+
+var registered bool
+
+func registerOnce() {
+	if !registered {
+		generator.RegisterTypes(factory())
+		registered = true
+	}
+}
+
+var autosaveFile string
+
+func autosavePath() string {
+	if autosaveFile == "" {
+		dir := ""
+		if st, err := os.Stat("/dev/shm"); err == nil && st.IsDir() {
+			dir = "/dev/shm"
+		}
+		log.SetOutput(io.Discard) // GraphSaver logs every save
+		f, err := os.CreateTemp(dir, "c12-autosave-*.json")
+		if err != nil {
+			panic(err)
+		}
+		f.Close()
+		autosaveFile = f.Name()
+	}
+	return autosaveFile
+}
+
+// freshApp is the application a saved file is loaded into.
+func freshApp() (*generator.App, *graph.Instance) {
+	app := &generator.App{Name: "verif", Version: "1", Description: "c12"}
+	return app, generator.VerifInstance(app)
 }
 
 // setMeta / delMeta apply an edit to the instance and to the reference model.
@@ -231,6 +263,18 @@ func (w *world) create(kind string) string {
 	if err != nil {
 		panic(err)
 	}
+	// non-zero defaults (public fields, persisted with the graph): a zero *current* value must survive
+	// the round trip as a value, not fall back to the default
+	switch n := w.inst.Node(id).(type) {
+	case *parameter.String:
+		n.DefaultValue = "dflt"
+	case *parameter.Float64:
+		n.DefaultValue = 2.5
+	case *parameter.Bool:
+		n.DefaultValue = true
+	case *parameter.File:
+		n.DefaultValue = []byte("DEFAULT-PAYLOAD") // as a graph declared in code would
+	}
 	w.ids = append(w.ids, id)
 	w.kinds[id] = kind
 	return id
@@ -254,8 +298,17 @@ var setValues = map[string][]string{
 	"file": {"\x00\x01binary\xff", "second"},
 }
 
-// apply executes one editing operation through the public API; false = not enabled in this state.
+// apply executes one editing operation and then the autosave every mutating endpoint performs.
 func (w *world) apply(o Op) bool {
+	if !w.applyEdit(o) {
+		return false
+	}
+	w.saver.Save()
+	return true
+}
+
+// applyEdit executes one editing operation through the public API; false = not enabled in this state.
+func (w *world) applyEdit(o Op) bool {
 	switch o.Kind {
 	case "create":
 		n := 0
@@ -591,27 +644,50 @@ func arrayClass(w *world) string {
 // default; deviations apply to the save/load/save pipeline, whose iterations are logged.
 func roundTrip(cs Case) (r result) {
 	mapord.Begin(nil)
-	w := buildSeed(cs.Seed)
-	for _, o := range cs.Ops {
-		if !w.apply(o) {
-			mapord.End()
-			return
+	var w *world
+	var d1 string
+	var a1 map[string]string
+	enabled := true
+	g0 := core.Guard(func() {
+		w = buildSeed(cs.Seed)
+		for _, o := range cs.Ops {
+			if !w.apply(o) {
+				enabled = false
+				return
+			}
 		}
+		d1, a1 = describe(w.inst, w.ids)
+	})
+	mapord.End()
+	if !enabled {
+		return
 	}
 	r.enabled = true
-	d1, a1 := describe(w.inst, w.ids)
-	mapord.End()
+	if g0.Panicked {
+		// an editing operation (or its autosave) crashed on a state reached through the public API
+		r.probs = append(r.probs, problem{"graph.Instance/" + core.TopFrame(g0.Stack), "editing, saving and loading the graph succeeds", "panic-while-editing", g0.Msg})
+		return
+	}
 
-	var s1, s2 []byte
+	var s1, s2, autosaved []byte
 	var inst2 *graph.Instance
+	var app2 *generator.App
 	var loadErr error
 	mapord.Begin(cs.Devs)
 	g := core.Guard(func() {
-		s1 = save(w.inst)
-		inst2 = graph.New(factory())
-		loadErr = inst2.ApplyAppSchema(s1)
+		if len(cs.Ops) > 0 {
+			// the file the autosaver left behind after the last edit is "the saved graph"
+			autosaved, _ = os.ReadFile(autosavePath())
+		}
+		s1 = save(w.app)
+		file := s1
+		if autosaved != nil {
+			file = autosaved
+		}
+		app2, inst2 = freshApp()
+		loadErr = app2.ApplySchema(file)
 		if loadErr == nil {
-			s2 = save(inst2)
+			s2 = save(app2)
 		}
 	})
 	r.iters, r.overflow = mapord.End()
@@ -627,6 +703,9 @@ func roundTrip(cs Case) (r result) {
 	case loadErr != nil:
 		add("graph.Instance.ApplyAppSchema", "saving and loading the graph succeeds", "load-error", loadErr.Error())
 		return
+	}
+	if autosaved != nil && !bytes.Equal(autosaved, s1) {
+		add("generator.GraphSaver.Save", "the file written by the autosave after the last edit is the saved graph", "autosaved-file-stale-or-different", byteDiff(autosaved, s1))
 	}
 	mapord.Begin(nil)
 	d2, a2 := describe(inst2, w.ids)
